@@ -220,7 +220,12 @@ func (e *Engine) RunContracts(pc *PropertyCheck, timeout time.Duration, maxPaths
 		for _, st := range sts {
 			o := &Outcome{Name: shortPkg(fn) + "." + st.Name, Func: full, Status: st.Status, Paths: st.Paths, Trivial: st.Trivial, Solvers: st.Solvers, Seconds: round3(st.Seconds), Kind: "vc"}
 			pc.SolverSecs += st.Seconds
-			if st.Status != "discharged" {
+			if st.Cover {
+				o.Kind = "cover"
+				if st.Status != "discharged" {
+					o.Detail = "the antecedent of this clause is not reachable on any returning path (vacuous clause)"
+				}
+			} else if st.Status != "discharged" {
 				o.fail = st
 				o.Detail = failDetail(st)
 			}
@@ -256,6 +261,26 @@ func (e *Engine) RunContracts(pc *PropertyCheck, timeout time.Duration, maxPaths
 			cov.Detail = "no returning path: preconditions may be contradictory"
 		}
 		pc.Outcomes = append(pc.Outcomes, cov)
+	}
+	for _, l := range e.Specs.Lemmas {
+		serves := false
+		for _, t := range l.Tags {
+			if t == pc.ID {
+				serves = true
+			}
+		}
+		if !serves {
+			continue
+		}
+		for _, st := range Discharge(e.Env.CheckLemma(l), timeout, 16) {
+			o := &Outcome{Name: shortPath(l.PkgPath) + "." + st.Name, Status: st.Status, Paths: st.Paths, Trivial: st.Trivial, Solvers: st.Solvers, Seconds: round3(st.Seconds), Kind: "lemma"}
+			pc.SolverSecs += st.Seconds
+			if st.Status != "discharged" {
+				o.fail = st
+				o.Detail = failDetail(st)
+			}
+			pc.Outcomes = append(pc.Outcomes, o)
+		}
 	}
 	for k := range usedTrusted {
 		for _, ct := range e.Specs.Contracts {
@@ -395,6 +420,11 @@ func (e *Engine) Finish(pc *PropertyCheck, level, technique string, extraAssumpt
 				}
 			}
 		}
+		if o.Status == "failed" && o.replay == nil {
+			if rec := e.RunReplay(o); rec != nil {
+				o.replay = rec
+			}
+		}
 		rp := e.writeReplay(pc, o, reason)
 		suffix := ""
 		if o.Status != "failed" || !e.replayable(o) {
@@ -409,6 +439,16 @@ func (e *Engine) Finish(pc *PropertyCheck, level, technique string, extraAssumpt
 		o := byName[n]
 		if o.Status == "discharged" || strings.Contains(n, "/known-defect-") {
 			continue
+		}
+		if (os.Getenv("GOVC_REPLAY_ALL") != "" || pc.Tier == "thorough") && o.Status == "failed" && o.replay == nil {
+			if rec := e.RunReplay(o); rec != nil {
+				o.replay = rec
+				fmt.Printf("REPLAY %s: %v\n", o.Name, rec["real_code_replay"])
+				if rec["error"] != nil {
+					fmt.Printf("REPLAY error: %v\n", rec["error"])
+				}
+				e.writeReplay(pc, o, "replay of a failed obligation")
+			}
 		}
 		if claimed[n] {
 			report(o, "claimed obligation no longer discharges")
@@ -505,7 +545,8 @@ func replayContains(o *Outcome, w string) bool {
 }
 
 func (e *Engine) replayable(o *Outcome) bool {
-	return o.replay != nil && o.replay["real_code_replay"] != nil
+	c, _ := o.replay["confirmed"].(bool)
+	return o.replay != nil && c
 }
 
 func safeName(s string) string {
